@@ -240,14 +240,16 @@ impl Dec {
         }
         self
     }
-    /// self + d (d small, result must stay >= 0)
-    fn add_small(&self, d: i64) -> Dec {
+    /// self + d (d small); None when the result would be negative
+    fn add_small(&self, d: i64) -> Option<Dec> {
         let mut v = self.0.clone();
         let mut carry = d;
         let mut i = v.len();
         while carry != 0 {
             if i == 0 {
-                assert!(carry > 0, "negative magnitude");
+                if carry < 0 {
+                    return None;
+                }
                 v.insert(0, 0);
                 i = 1;
             }
@@ -257,7 +259,7 @@ impl Dec {
             carry = (t - digit) / 10;
             v[i] = digit as u8;
         }
-        Dec(v).norm()
+        Some(Dec(v).norm())
     }
     fn show(&self) -> String {
         self.0.iter().map(|d| (b'0' + d) as char).collect()
@@ -315,7 +317,7 @@ fn boundary_magnitudes(thorough: bool) -> Vec<String> {
     for k in [7u32, 8, 15, 16, 31, 32, 63, 64, 127] {
         bases.push(Dec::from_u128(1u128 << k));
     }
-    bases.push(Dec::from_u128(u128::MAX).add_small(1)); // 2^128
+    bases.push(Dec::from_u128(u128::MAX).add_small(1).unwrap()); // 2^128
     bases.push(Dec::from_u128(PTR_BITS as u128)); // harmless small base
     for k in 1..=41usize {
         bases.push(Dec::pow10(k));
@@ -323,7 +325,9 @@ fn boundary_magnitudes(thorough: bool) -> Vec<String> {
     let mut v = Vec::new();
     for b in &bases {
         for d in -span..=span {
-            v.push(b.add_small(d).show());
+            if let Some(x) = b.add_small(d) {
+                v.push(x.show());
+            }
         }
     }
     v.sort();
